@@ -57,6 +57,8 @@ pub fn known_broken_combo(d: Dialect, os: &OptSet) -> Option<&'static str> {
     None
 }
 
+pub static SLOW_MS: std::sync::atomic::AtomicU64 = std::sync::atomic::AtomicU64::new(4000);
+
 pub fn run_case(out: &mut Out, case: &Case, ds: &[Dialect]) {
     let sets = option_sets();
     let mut compared_total = 0;
@@ -72,9 +74,16 @@ pub fn run_case(out: &mut Out, case: &Case, ds: &[Dialect]) {
         if !out.begin(&cid0) {
             continue;
         }
+        let t0 = std::time::Instant::now();
         let b0 = build_with(&text, *d, &sets[0]);
         compared_total += judge_cell_sig(out, "c02", case, &b0, "off", None);
         out.end(&cid0);
+        // a program whose plain build already takes this long would take minutes over all switch sets: left to the thorough tier
+        let slow_ms: u128 = std::env::var("VH_C02_SLOW_MS").ok().and_then(|x| x.parse().ok()).unwrap_or(SLOW_MS.load(std::sync::atomic::Ordering::SeqCst) as u128);
+        if t0.elapsed().as_millis() > slow_ms {
+            out.inconclusive("slow_program_other_switch_sets_not_built", json!({"case": case.id, "dialect": d.name(), "ms": t0.elapsed().as_millis() as u64}));
+            continue;
+        }
         let off_clean = out.get("violations") == before;
         if let Ok(c) = &b0.result {
             distinct_bytes.insert(c.prog.ser());
@@ -108,6 +117,7 @@ pub fn run(cfg: &Cfg) -> i32 {
     let shard = cfg.shard as u64;
     let gcfg = GenCfg::modern();
     let nprog: usize = std::env::var("VH_NPROG").ok().and_then(|x| x.parse().ok()).unwrap_or(cfg.pick(90, 1500));
+    SLOW_MS.store(cfg.pick(4000, 45000), std::sync::atomic::Ordering::SeqCst);
     for i in out.resume_from..nprog {
         out.checkpoint(i);
         // a different slice of the generator's sequence than C01 uses
